@@ -1,7 +1,10 @@
-"""C08 correspondence for Model/Heff.v: the local effective operator of the chain sweep on exact integer data.
-stdin {"cases": [...]} -> RESULT {"results": [...]}: for random small integer environments / operator tensors /
-masks / coefficient vectors, the result of (a) get_ham_direct(...)[mask][:, mask] @ c and (b) hop_expr(...)(cvec2cmat(c))[mask],
-to be compared with heff1_masked / heff2_apply evaluated by Coq over Z."""
+"""C08 correspondence for Model/Heff.v: the local effective operator of the chain sweep on exact GAUSSIAN-INTEGER data
+(complex entries with integer real and imaginary parts, so that a transposition / a lost conjugation is visible).
+stdin {"cases": [...]} -> RESULT: for random small environments / operator tensors / masks / coefficient vectors the result of
+  (a) get_ham_direct(...)[mask][:, mask] @ c          (direct solver's matrix)
+  (b) hop_expr(...)(cvec2cmat(c))[mask]               (iterative solver's matrix-free product)
+for one / two sites, with and without the two-layer (omega) operator, to be compared with heff1_masked / heff2_apply /
+heff_omega1 / heff_omega2 evaluated by Coq over the Gaussian integers.  Complex numbers travel as [re, im]."""
 import json
 import sys
 import types
@@ -15,41 +18,78 @@ from renormalizer.mps.lib import cvec2cmat
 from renormalizer.mps.matrix import asnumpy
 
 
-def ints(x):
-    a = np.asarray(x, dtype=float)
-    r = np.rint(a)
-    if np.abs(a - r).max(initial=0.0) > 1e-9:
+def gi(x):
+    a = np.asarray(x, dtype=complex)
+    re, im = np.rint(a.real), np.rint(a.imag)
+    if a.size and max(np.abs(a.real - re).max(), np.abs(a.imag - im).max()) > 1e-9:
         raise ValueError("non-integer result")
-    return r.astype(int).tolist()
+
+    def conv(r, i):
+        if isinstance(r, list):
+            return [conv(x, y) for x, y in zip(r, i)]
+        return [int(r), int(i)]
+    return conv(re.astype(int).tolist(), im.astype(int).tolist())
+
+
+def rnd(rng, shape, lo=-2, hi=3):
+    return (rng.integers(lo, hi, shape) + 1j * rng.integers(lo, hi, shape)).astype(complex)
 
 
 def run_case(case):
     rng = np.random.default_rng(case["seed"])
-    two = case["two"]
+    two, om = case["two"], case["omega"]
     da, db, dr, bo = case["da"], case["db"], case["dr"], case["bo"]
-    L = rng.integers(-2, 3, (da, db, da)).astype(float)
-    Rt = rng.integers(-2, 3, (dr, bo, dr)).astype(float)
+    if om:
+        L, Rt = rnd(rng, (da, db, db, da)), rnd(rng, (dr, bo, bo, dr))
+    else:
+        L, Rt = rnd(rng, (da, db, da)), rnd(rng, (dr, bo, dr))
     if two:
         p1, p2, b1 = case["p1"], case["p2"], case["b1"]
-        cmo = [rng.integers(-2, 3, (db, p1, p1, b1)).astype(float), rng.integers(-2, 3, (b1, p2, p2, bo)).astype(float)]
+        cmo = [rnd(rng, (db, p1, p1, b1)), rnd(rng, (b1, p2, p2, bo))]
         cshape = (da, p1, p2, dr)
     else:
         p = case["p"]
-        cmo = [rng.integers(-2, 3, (db, p, p, bo)).astype(float)]
+        cmo = [rnd(rng, (db, p, p, bo))]
         cshape = (da, p, dr)
     mask = rng.random(cshape) < 0.7
     if not mask.any():
         mask.flat[0] = True
-    c = rng.integers(-3, 4, int(mask.sum())).astype(float)
+    c = rnd(rng, int(mask.sum()), -3, 4)
     fake = types.SimpleNamespace(optimize_config=types.SimpleNamespace(method="2site" if two else "1site"))
-    ham = asnumpy(G.get_ham_direct(fake, mask, L, Rt, list(cmo), None))
+    ham = asnumpy(G.get_ham_direct(fake, mask, L, Rt, list(cmo), 0.5 if om else None))
     hv_direct = ham @ c
     cstruct = cvec2cmat(c, mask)
-    expr = hop_expr(L, Rt, list(cmo), cshape)
+    expr = hop_expr(L, Rt, list(cmo), cshape, bool(om))
     hv_iter = asnumpy(expr(cstruct))[mask]
-    return {"id": case["id"], "L": ints(L), "R": ints(Rt), "cmo": [ints(x) for x in cmo], "mask": mask.astype(int).tolist(),
-            "cstruct": ints(cstruct), "hv_direct": ints(hv_direct), "hv_iter": ints(hv_iter),
-            "sym_err": float(np.abs(ham - ham.T).max())}
+    return {"id": case["id"], "L": gi(L), "R": gi(Rt), "cmo": [gi(x) for x in cmo], "mask": mask.astype(int).tolist(),
+            "cstruct": gi(cstruct), "hv_direct": gi(hv_direct), "hv_iter": gi(hv_iter)}
+
+
+REPRO = r'''
+import sys, json
+sys.path.insert(0, "/verif/harness/impl")
+import numpy as np, c08_heff as Hf
+case = json.loads(%r)
+r = Hf.run_case(case)
+# independent reference: plain numpy einsum of the definition, rows = bra indices, columns = ket indices
+cx = lambda x: (np.array(x, dtype=float)[..., 0] + 1j * np.array(x, dtype=float)[..., 1])
+L, R, cmo, C = cx(r["L"]), cx(r["R"]), [cx(x) for x in r["cmo"]], cx(r["cstruct"])
+mask = np.array(r["mask"], dtype=bool)
+if case["omega"]:
+    if case["two"]:
+        out = np.einsum("xbcy,bptf,ctqi,frug,iusj,zgjw,yqsw->xprz", L, cmo[0], cmo[0], cmo[1], cmo[1], R, C, optimize=True)
+    else:
+        out = np.einsum("xbcy,bptf,ctqi,zfiw,yqw->xpz", L, cmo[0], cmo[0], R, C, optimize=True)
+else:
+    if case["two"]:
+        out = np.einsum("xby,bpqf,frsg,zgw,yqsw->xprz", L, cmo[0], cmo[1], R, C, optimize=True)
+    else:
+        out = np.einsum("xby,bpqf,zfw,yqw->xpz", L, cmo[0], R, C, optimize=True)
+ref = out[mask]
+d = np.abs(cx(r["hv_direct"]) - ref).max(); i = np.abs(cx(r["hv_iter"]) - ref).max()
+print("case", case); print("max |get_ham_direct @ c - reference| =", d, "   max |hop_expr(c) - reference| =", i)
+sys.exit(1 if (%s) else 0)
+'''
 
 
 def main():
@@ -58,7 +98,7 @@ def main():
     for case in payload["cases"]:
         try:
             res.append(run_case(case))
-        except Exception as e:
+        except Exception:
             import traceback
             res.append({"id": case["id"], "error": traceback.format_exc()[-800:]})
     if payload.get("out"):
